@@ -410,6 +410,8 @@ class Interp(object):
         if isinstance(a, (Opaque, Closure, ClassRef, ExtRef)) or isinstance(b, (Opaque, Closure, ClassRef, ExtRef)):
             if name in ('eq', 'ne') and (a is None or b is None):
                 return name == 'ne'
+            if name in ('eq', 'ne') and isinstance(a, (ClassRef, ExtRef)) and isinstance(b, (ClassRef, ExtRef)):
+                return self._is(a, b) == (name == 'eq')        # types / library objects compare by identity
             raise Undecidable('comparison with %r / %r' % (a, b))
         try:
             if name == 'eq':
@@ -459,6 +461,12 @@ class Interp(object):
     def _is(self, a, b):
         if a is None or b is None:
             return a is b
+        if isinstance(a, ExtRef) and isinstance(b, ExtRef):
+            return a.dotted == b.dotted
+        if isinstance(a, ClassRef) and isinstance(b, ClassRef):
+            return a.info is b.info
+        if isinstance(a, (ExtRef, ClassRef)) or isinstance(b, (ExtRef, ClassRef)):
+            return False
         if isinstance(a, (Obj, list, dict, Opaque)) or isinstance(b, (Obj, list, dict, Opaque)):
             return a is b
         if isinstance(a, bool) and isinstance(b, bool):
@@ -1334,6 +1342,8 @@ class Interp(object):
                     return r
         if qual is not None:
             hook = self._find_hook(f, qual)
+            if hook is None and getattr(self, 'hook_pred', None) is not None:
+                hook = self.hook_pred(self, f, args, kwargs)        # hooks addressed by role (call-graph position) instead of by name
             if hook is not None:
                 r = hook(self, ([f.self_obj] if f.self_obj is not None else []) + list(args), kwargs)
                 if r is not NotImplemented:
